@@ -119,11 +119,10 @@ def modelStep (s : St) (op : List String) (exts : List (List String)) : St × Op
   | ["reload", host, reason, sc, cnt, dry, attrs, _] =>
     r (step s (.reload (parseCfg host reason sc cnt dry attrs)))
   | ["floor", "det", n] => match n.toInt? with
-    -- `Start` divides by uint32(SampleRate): a multiple of 2^32 is C10's business, not modelled here
-    | some n => (s, some (if n % (two32 : Int) = 0 then "*" else toString (deterministicRate n)))
+    | some n => (s, some (toString (deterministicRate n)))
     | none => (s, some "bad-op")
   | ["floor", "dyn", n] => match n.toInt? with
-    | some n => (s, some (match dynOutcome n with | some x => toString x | none => "panic"))
+    | some n => (s, some (toString (dynRate n)))
     | none => (s, some "bad-op")
   | ["floor", "rule", n, _] => match n.toInt? with
     | some n => (s, some (toString (rulesRate n)))
